@@ -154,7 +154,30 @@ class PolicyAnalysis:
                     st2.asm[f.cond] = val
                     expand(st2, depth + 1)
                 return
-            worlds.append(World(pattern, self.policy_of(st.asm), dict(st.asm), final, None))
+            # canonical form: split on the parameter-only conditions (e.g. `intervals[K] == 0`) the joined cell values
+            # still depend on, so that the set of worlds does not depend on how much of the code happens to be pure
+            from . import domains as D
+            from .terms import subterms
+            import itertools
+            conds = []
+            for k, cell in (final or {}).items():
+                if cell[0] == 'Ok':
+                    for c in D.ite_conds(cell[1]) + D.ite_conds(cell[2]):
+                        if c in conds or c in st.asm:
+                            continue
+                        atoms = [x for x in subterms(c) if x and x[0] == 'param']
+                        if atoms and all(x == ('param', 'params') for x in atoms):
+                            conds.append(c)
+            if not conds or len(conds) > 4:
+                worlds.append(World(pattern, self.policy_of(st.asm), dict(st.asm), final, None))
+                return
+            for bits in itertools.product([True, False], repeat=len(conds)):
+                asm = dict(st.asm)
+                asm.update(zip(conds, bits))
+                fin = {}
+                for k, cell in final.items():
+                    fin[k] = ('Ok', E.specialise(cell[1], asm), E.specialise(cell[2], asm)) if cell[0] == 'Ok' else cell
+                worlds.append(World(pattern, self.policy_of(asm), asm, fin, None))
         for st in E.leaves_of(tree):
             expand(st)
         return worlds, events, dict(eng.unmodelled), list(eng.incomplete), eng.steps, dict(eng.visited)
